@@ -78,6 +78,35 @@ theorem c20_pull_returns_pushed {pr : Params} {s : Cfg} (h : Reachable pr s) (x 
   rw [← hi.fifo]
   exact List.mem_append_left _ (hi.curPulled x hx)
 
+/-! ## End of stream: the `nil` marker (both loops — `fillSegmentQueue` and, since fix-F28, `runLowLatency`) -/
+
+/-- Once the producer has pushed the `nil` end-of-stream marker, the marker is the LAST entry of the
+    push history (all segments before it, in order), and the producer never pushes again: it is
+    finishing that very `push`, sits in its final `<-ctx.Done()`, or has returned.
+    Holds for the traditional loop (`fillSegmentQueue`'s ENDLIST branch) and for the Low-Latency
+    loop (ENDLIST playlist without preload hint). -/
+theorem c20_eos_is_last_push {pr : Params} {s : Cfg} (h : Reachable pr s) (he : s.eosDone = true) :
+    s.pushed = history s.nextId false ++ [.eos] ∧
+    (((s.ppc = .pushSignal ∨ s.ppc = .pushUnlock) ∧ s.pItem = .eos) ∨ s.ppc = .eosWait ∨ s.ppc = .done) := by
+  have hi := inv_reachable h
+  refine ⟨?_, hi.eosP he⟩
+  rw [hi.shape, he, history_eos]
+
+/-- The Low-Latency loop has no back-pressure: its producer is never inside
+    `waitUntilSizeIsBelow` (pinned by `skeleton_shape`: `runLowLatency` contains no `callWaitBelow`). -/
+theorem c20_ll_no_throttle {pr : Params} {s : Cfg} (h : Reachable pr s) (hm : pr.mode = .lowLatency) :
+    ¬ s.ppc.inWaitAny :=
+  (inv_reachable h).llNoWait hm
+
+/-- `skeleton_shape` spelled out for the two facts above: the regenerated `runLowLatency` has no
+    throttle call and exactly one `push(nil)`, guarded by `PreloadHint == nil` ∧ `Endlist`, followed
+    by `<-ctx.Done()` and `return`. -/
+theorem c20_ll_caller_shape :
+    Hls.Gen.queueSkeleton.runLowLatency =
+      [.loopBegin, .download, .callPush, .download,
+       .ifNoHintBegin, .ifLastBegin, .callPushNil, .ctxWait, .ret, .ifEnd, .ret, .ifEnd, .loopEnd] := by
+  decide
+
 /-! ## Bounded look-ahead (runTraditional) -/
 
 /-- General form: with threshold `n`, never more than `n + 1` downloaded segments are queued,
@@ -270,6 +299,17 @@ example : ∃ s, Reachable fixedParams s ∧ s.ppc.atRest ∧ s.cpc.atRest ∧ s
 example : ∃ s, Reachable fixedParams s ∧ s.cancelled = true ∧ s.ppc = .done ∧ s.cpc = .done :=
   ⟨_, reachable_of_run .init (ls := List.replicate 6 .p ++ [.pLast] ++ List.replicate 5 .p ++ List.replicate 12 .c ++
       [.cancel, .pCancel, .cCancel]) rfl, by decide⟩
+
+/-- Low-Latency producer: three parts, then the end-of-stream marker (hypothesis of
+    `c20_eos_is_last_push` in LL mode); consumer drains; both at rest; never throttled although
+    three entries were queued (`c20_ll_no_throttle`) -/
+example : ∃ s, Reachable (genParams .lowLatency) s ∧ s.eosDone = true ∧ s.ppc = .eosWait ∧
+    s.pushed = [.seg 0, .seg 1, .seg 2, .eos] ∧ s.queue.length = 4 :=
+  ⟨_, reachable_of_run .init (ls := List.replicate 20 .p ++ [.pLast] ++ List.replicate 5 .p) rfl, by decide⟩
+
+example : ∃ s, Reachable (genParams .lowLatency) s ∧ s.ppc.atRest ∧ s.cpc.atRest ∧
+    s.pulled = [.seg 0, .seg 1, .eos] ∧ enabled (genParams .lowLatency) s = [.cancel] :=
+  ⟨_, reachable_of_run .init (ls := List.replicate 13 .p ++ [.pLast] ++ List.replicate 5 .p ++ List.replicate 18 .c) rfl, by decide⟩
 
 /-- producer at `download` with one segment queued (hypothesis of `c20_download_only_below`) -/
 example : ∃ s, Reachable fixedParams s ∧ s.ppc = .download ∧ segLen s.queue = 1 :=
